@@ -61,7 +61,16 @@ def make(case):
         ens = 'E%d' % (p % case['nens'])
         sig = 0.01 * abs(yv[p]) * (1 + 0.3 * (p % 3)) + 1e-3 * ysc
         smp = yv[p] + sig * (case['corr'] * common + nprng.normal(size=n)) / np.sqrt(1 + case['corr'] ** 2)
-        ys.append(pe.Obs([smp], [ens + '|r1']))
+        o_ = pe.Obs([smp], [ens + '|r1'])
+        if case.get('zfac') and case.get('kind') == 'ls':
+            # every point on its own ensemble times one common factor of central value exactly 1 on a further ensemble:
+            # the name lists of the points differ pairwise but overlap, the points are correlated through the factor
+            if p == 0:
+                zs_ = nprng.normal(size=n)
+                case_z = pe.Obs([1.0 + 0.02 * (zs_ - np.mean(zs_))], ['Zens|r1'])
+                make._z = case_z
+            o_ = pe.Obs([smp], ['P%d|r1' % p]) * make._z
+        ys.append(o_)
     if k_int is not None:
         ys[0] = pe.cov_Obs(k_int, (0.01 * k_int) ** 2, 'YI')
     return x, ys, af, nf, truth
@@ -439,6 +448,8 @@ def gen_case(ctx):
     case['xint'] = kind == 'tls' and rng.random() < 0.3
     case['yint'] = kind == 'ls' and not case['correlated'] and rng.random() < 0.25
     # (not together with num_grad: the step sizes of numdifftools are absolute, its Hessian is taken on contract at scale 1)
+    if kind == 'ls' and case['correlated'] and not case['yint'] and rng.random() < 0.4:
+        case['zfac'] = True
     if kind == 'ls' and not case['yint'] and not case['num_grad'] and rng.random() < 0.35:
         case['yscale2'] = rng.choice([-10, -12, 7])
     if kind == 'tls' and rng.random() < 0.35:
